@@ -35,7 +35,6 @@ def stageClass (kind arg : String) (tok : String) : Option String :=
       else kind
     some s!"abort-{how}-{grp}"
   | [stage, "hang"] => some s!"hang-{kind}-{stage}"
-  | ["thread", "panic", _] => some "panic-thread"
   | _ => none
 
 def outcomeClass (tok : String) : String :=
